@@ -167,39 +167,60 @@ def r20b(ctx: Context) -> None:
     rule = ctx.rule("R20b", "enabled flags mean 'this extension's id is in the enabled list'", 12)
     manager = prog.cls(EM)
     apply_fn = prog.method(EM, "apply_configuration")
-    # property -> field
-    field_of: Dict[str, str] = {}
-    for name, method in manager.methods.items():
-        if method.kind == "property" and name in FLAG_CLASSES:
-            for node in walk_local(method.node):
-                if isinstance(node, ast.Return) and isinstance(node.value, ast.Attribute):
-                    field_of[name] = node.value.attr
+    # each property must evaluate to '<its extension class>().get_identifier() in <enabled list>' - returned
+    # directly, through a field that apply_configuration assigns once and unconditionally, or through a helper
+    def resolve(func: FuncInfo, expr: ast.AST, bindings: Dict[str, ast.AST], depth: int = 0) -> Tuple[Optional[str], Optional[str], str]:
+        """(extension class, list attribute, problem)"""
+        if depth > 4:
+            return None, None, "too deep"
+        if isinstance(expr, ast.Name) and expr.id in bindings:
+            return resolve(func, bindings[expr.id], {}, depth + 1)
+        if isinstance(expr, ast.Compare) and len(expr.ops) == 1 and isinstance(expr.ops[0], ast.In):
+            left, right = expr.left, expr.comparators[0]
+            if isinstance(left, ast.Call) and isinstance(left.func, ast.Attribute) and left.func.attr == "get_identifier":
+                owner = left.func.value
+                if isinstance(owner, ast.Name) and owner.id in bindings:
+                    owner = bindings[owner.id]
+                if isinstance(owner, ast.Call) and isinstance(owner.func, ast.Name) and isinstance(right, ast.Attribute) and right.attr.endswith("enabled_extensions"):
+                    return owner.func.id, right.attr, ""
+            return None, None, f"computed as '{norm(expr)[:80]}'"
+        if isinstance(expr, ast.Attribute) and isinstance(expr.value, ast.Name) and func.params and expr.value.id == func.params[0]:
+            field = expr.attr
+            writers = [(m, n) for m in manager.methods.values() for n in walk_local(m.node) if isinstance(n, (ast.Assign, ast.AnnAssign)) and getattr(n, "value", None) is not None
+                       and any(isinstance(t, ast.Attribute) and t.attr == field for t in (n.targets if isinstance(n, ast.Assign) else [n.target]))]
+            outside = [(m, n) for m, n in writers if m.name not in ("apply_configuration", "__init__")]
+            if outside:
+                return None, None, f"'{field}' is also written by {outside[0][0].short}"
+            inside = [n for m, n in writers if m.name == "apply_configuration"]
+            if len(inside) != 1:
+                return None, None, f"'{field}' is assigned {len(inside)} times in apply_configuration"
+            if guards_of(apply_fn.node, inside[0]):
+                return None, None, f"'{field}' is assigned conditionally"
+            return resolve(apply_fn, inside[0].value, {}, depth + 1)
+        if isinstance(expr, ast.Call):
+            site = site_for(prog, func, expr)
+            if site and len(site.targets) == 1 and site.targets[0].cls == manager:
+                helper = site.targets[0]
+                returned = returns_of(helper)
+                if len(returned) == 1:
+                    bound = Program.bind_args(helper, expr, skip_self=helper.kind == "instance")
+                    return resolve(helper, returned[0], {k: v for k, v in bound.items() if v is not None}, depth + 1)
+        return None, None, f"computed as '{norm(expr)[:80]}'"
+
     for prop, cls_name in FLAG_CLASSES.items():
-        field = field_of.get(prop)
         key = f"ExtensionManager.{prop}"
-        if field is None:
+        method = manager.methods.get(prop)
+        returned = returns_of(method) if method is not None and method.kind == "property" else []
+        if len(returned) != 1:
             rule.fail(key, where(apply_fn), f"property {prop} is missing or does not return a field")
             continue
-        assigns = [n for n in walk_local(apply_fn.node) if isinstance(n, ast.Assign) and any(isinstance(t, ast.Attribute) and t.attr == field for t in n.targets)]
-        other_writers = [
-            (m, n) for m in manager.methods.values() if m.name not in ("apply_configuration", "__init__")
-            for n in walk_local(m.node) if isinstance(n, ast.Assign) and any(isinstance(t, ast.Attribute) and t.attr == field for t in n.targets)
-        ]
-        if other_writers:
-            rule.fail(key, where(other_writers[0][0], other_writers[0][1]), f"'{field}' is also written by {other_writers[0][0].short}")
-            continue
-        if len(assigns) != 1:
-            rule.fail(key, where(apply_fn), f"'{field}' is assigned {len(assigns)} times in apply_configuration")
-            continue
-        value = assigns[0].value
-        good = (
-            isinstance(value, ast.Compare) and len(value.ops) == 1 and isinstance(value.ops[0], ast.In)
-            and norm(value.left) == f"{cls_name}().get_identifier()" and norm(value.comparators[0]).endswith("enabled_extensions")
-        )
-        if good and not guards_of(apply_fn.node, assigns[0]):
-            rule.ok(key, f"{cls_name}().get_identifier() in enabled list")
+        found_cls, list_attr, problem = resolve(method, returned[0], {})
+        if found_cls == cls_name and list_attr:
+            rule.ok(key, f"{cls_name}().get_identifier() in {list_attr}")
+        elif found_cls:
+            rule.fail(key, where(method), f"{prop} is '{found_cls}().get_identifier() in {list_attr}', not the flag of {cls_name}: the flag follows another extension")
         else:
-            rule.fail(key, where(apply_fn, assigns[0]), f"{prop} is computed as '{norm(value)[:90]}', not as '{cls_name}().get_identifier() in <enabled list>': the flag can be true while the extension is disabled (or follow another extension)")
+            rule.fail(key, where(method), f"{prop} is not '{cls_name}().get_identifier() in <enabled list>' ({problem}): the flag can be true while the extension is disabled")
     # the enabled list grows only under the enabled decision
     appends = [n for n in walk_local(apply_fn.node) if isinstance(n, ast.Call) and isinstance(n.func, ast.Attribute) and n.func.attr == "append" and "enabled_extensions" in norm(n.func.value)]
     for node in appends:
